@@ -426,8 +426,12 @@ def build_program_cases(seed, i, tier):
         structure["extra_files"] = {}
         structure["packages"] = []
         names = list(sp.files)
-        if rng.random() < 0.35:
-            files["extra.pn"] = pngen.extra_module(rng)
+        if rng.random() < 0.45:
+            if rng.random() < 0.5:
+                files["extra.pn"] = pngen.twin_module(prog, rng)
+                pert.append("twin_module")
+            else:
+                files["extra.pn"] = pngen.extra_module(rng)
             structure["extra_files"]["extra.pn"] = files["extra.pn"]
             names.append("extra.pn")
             pert.append("extra_module")
